@@ -264,7 +264,16 @@ func (c *collector) add(ctx context.Context, id string, t *tpb.Target, tt *tunne
 		t.Addresses = []string{id}
 	}
 
+	// The cache only accepts updates for targets it knows: reserve the target
+	// before the manager can deliver its first update.
+	registered := !c.cache.HasTarget(id)
+	if registered {
+		c.cache.Add(id)
+	}
 	if err := c.tm.Add(id, t, request); err != nil {
+		if registered {
+			c.cache.Remove(id)
+		}
 		return fmt.Errorf("Could not add target %q: %v", id, err)
 	}
 	return nil
